@@ -887,6 +887,14 @@ impl<'p, 'a> Evaluator<'a, 'p> {
                     if let Some(field_name) = self.program.str_interner.get_interned(field_name) {
                         self.want_super_field(&env, super_span, field_name, span)?;
                     } else {
+                        // Same outcome as for a name that happens to be interned
+                        // (the interner contents depend on earlier evaluations).
+                        let (object, layer_i) = env.get_object();
+                        if layer_i == object.view().super_layers.len() {
+                            return Err(self.report_error(
+                                EvalErrorKind::SuperWithoutSuperObject { span: super_span },
+                            ));
+                        }
                         return Err(self.report_error(EvalErrorKind::UnknownObjectField {
                             span,
                             field_name: (**field_name).into(),
